@@ -686,22 +686,53 @@ class Hugr(Mapping[Node, NodeData], Generic[OpVarCov]):
             )
         return mapping
 
+    def _serial_order(self) -> list[Node]:
+        """The order in which nodes are serialized.
+
+        Increasing index (an order-preserving renumbering when indices are not
+        contiguous) as long as that lists every parent before its children and
+        siblings in child order, which is what readers of the format rely on.
+        Once freed indices have been reused that may no longer hold: walk the
+        hierarchy instead.
+        """
+        live = [Node(idx) for idx, data in enumerate(self._nodes) if data is not None]
+
+        def consistent(node: Node) -> bool:
+            data = self[node]
+            if data.parent is not None and data.parent.idx > node.idx:
+                return False
+            child_idxs = [c.idx for c in data.children]
+            return child_idxs == sorted(child_idxs)
+
+        if live[0] == self.root and all(consistent(n) for n in live):
+            return live
+        order = [self.root]
+        for node in order:
+            order.extend(self[node].children)
+        return order
+
     def _to_serial(self) -> SerialHugr:
         """Serialize the HUGR."""
-        node_it = (node for node in self._nodes if node is not None)
+        order = self._serial_order()
+        # non contiguous indices will be erased
+        new_idx = {node.idx: i for i, node in enumerate(order)}
+
+        def _serialize_node(node: Node) -> SerialOp:
+            data = self[node]
+            parent = data.parent if data.parent is not None else node
+            return SerialOp(root=data.op._to_serial(Node(new_idx[parent.idx])))  # type: ignore[arg-type]
 
         def _serialize_link(
             link: tuple[_SO, _SI],
         ) -> tuple[tuple[NodeIdx, PortOffset], tuple[NodeIdx, PortOffset]]:
             src, dst = link
             s, d = self._constrain_offset(src.port), self._constrain_offset(dst.port)
-            return (src.port.node.idx, s), (dst.port.node.idx, d)
+            return (new_idx[src.port.node.idx], s), (new_idx[dst.port.node.idx], d)
 
         return SerialHugr(
-            # non contiguous indices will be erased
-            nodes=[node._to_serial(Node(idx, {})) for idx, node in enumerate(node_it)],
+            nodes=[_serialize_node(node) for node in order],
             edges=[_serialize_link(link) for link in self._links.items()],
-            metadata=[node.metadata if node.metadata else None for node in node_it],
+            metadata=[self[node].metadata or None for node in order],
         )
 
     def _constrain_offset(self, p: P) -> PortOffset:
